@@ -849,17 +849,21 @@ func redoEquity(c *types.ChangeLog, processor types.ChangeLogProcessor) error {
 }
 
 func undoEquity(c *types.ChangeLog, processor types.ChangeLogProcessor) error {
-	oldVal, ok := c.OldVal.(*types.AssetEquity)
-	if !ok {
-		log.Errorf("undoEquity expected OldVal *types.AssetEquity, got %T", c.OldVal)
-		return types.ErrWrongChangeLogData
-	}
 	id, ok := c.Extra.(common.Hash)
 	if !ok {
 		log.Errorf("undoEquity expected Extra common.Hash, got %T", c.Extra)
 		return types.ErrWrongChangeLogData
 	}
 	accessor := processor.GetAccount(c.Address)
+	if c.OldVal == nil {
+		// the entry was created by this change (NewEquityLog leaves OldVal empty then): take it away again
+		return accessor.SetEquityState(id, nil)
+	}
+	oldVal, ok := c.OldVal.(*types.AssetEquity)
+	if !ok {
+		log.Errorf("undoEquity expected OldVal *types.AssetEquity, got %T", c.OldVal)
+		return types.ErrWrongChangeLogData
+	}
 	return accessor.SetEquityState(id, oldVal)
 }
 
